@@ -194,9 +194,63 @@ def r6(F, rep):
                  "expansion flags)")
 
 
+def r7(F, rep):
+    rep.rule("C15-R7", "change detection covers what may change: in colvar_grid::parse_params() every grid-defining member that "
+                       "a get_keyval() call may overwrite (boundaries, widths, sizes) is saved before the calls, and the test "
+                       "that decides whether the grid is re-dimensioned compares the member with its saved copy")
+    from .rules_c10 import lvalue_writes
+    n = 0
+    done = set()
+    for f in F.func_q("colvar_grid::parse_params") or []:
+        pass
+    fs = [f for f in F.funcs.values() if f.name == "parse_params" and (f.cls or "").startswith("colvar_grid")]
+    if not fs:
+        raise AnalysisBroken("colvar_grid::parse_params not found")
+    f = fs[0]
+    res = None
+    gk = [c for c in X.calls(f) if X.callee_name(c) == "get_keyval" and len(X.call_args(c)) >= 3]
+    members = {}
+    for c in gk:
+        a = X.strip(X.call_args(c)[2])
+        if a["k"] == "MemberExpr" and a.get("dk") == "Field" and "vector" in f.type(a):
+            members.setdefault(a["n"], []).append(c)
+    # saved copies
+    saved = {}
+    for v in f.walk():
+        if v["k"] == "VarDecl" and X.kids(v):
+            init = X.strip(X.kids(v)[0])
+            while init["k"] in ("CXXConstructExpr",) and len(X.kids(init)) == 1:
+                init = X.strip(X.kids(init)[0])
+            if init["k"] == "MemberExpr" and init.get("n") in members:
+                saved[init["n"]] = v
+    # the change test: conditions guarding `new_params = true`
+    sets = [w for w, t in lvalue_writes(f) if X.strip(t)["k"] == "DeclRefExpr" and X.strip(t).get("n") == "new_params" and
+            w["k"] == "BinaryOperator" and C._lit(X.kids(w)[1]) == 1]
+    cond_keys = ""
+    for w in sets:
+        for a in f.ancestors(w):
+            if a["k"] == "IfStmt":
+                cs = a["c"]
+                cn = cs[1] if len(cs) == 4 else cs[0]
+                cond_keys += " " + X.re_strip(X.key(cn, f))
+    if not sets:
+        raise AnalysisBroken("colvar_grid::parse_params: `new_params = true` not found")
+    for m in sorted(members):
+        n += 1
+        v = saved.get(m)
+        before = v is not None and all(f.cfg.dominates(v, c) for c in members[m])
+        compared = v is not None and ("this." + m) in cond_keys and v["n"] in cond_keys
+        rep.add("C15-R7", "parse_params|%s" % m, f.loc(members[m][0]), "`%s` may be overwritten from the configuration; saved before as `%s`: %s; compared in the re-dimensioning test: %s" % (
+            m, v["n"] if v is not None else None, before, compared), before and compared,
+            detail="changing only this parameter leaves the grid with its old number of points", func=f.q)
+    if n < 4:
+        raise AnalysisBroken("parse_params: only %d overwritable grid members found" % n)
+
+
 def run(F, rep, tier):
     r1(F, rep)
     r3(F, rep)
     r4(F, rep)
     r5(F, rep)
     r6(F, rep)
+    r7(F, rep)
